@@ -342,6 +342,33 @@ def _intended(ctx, trace):
                          "the one OpenType intends (exact tag, else script default, else DFLT)" % (dev, tot))
 
 
+def _run_batch(ctx, argv, **kw):
+    """ctx.run for the case runner.  The runner lays out separate fonts in separate goroutines; a Go runtime abort
+    'concurrent map writes/read' inside go-sfnt then means that the library writes to package-level state shared by
+    all fonts (every goroutine owns its font, its layouter and its switch maps).  It is reproduced once and reported;
+    any other breakdown stays an infrastructure failure.  Returns False when the batch was lost this way."""
+    try:
+        ctx.run(argv, **kw)
+        return True
+    except vlib.Infra as ex:
+        txt = str(ex)
+        if "fatal error: concurrent map" not in txt or "seehuhn.de/go/sfnt" not in txt:
+            raise
+        for attempt in range(3):
+            try:
+                ctx.run(argv, **kw)
+            except vlib.Infra as ex2:
+                if "fatal error: concurrent map" in str(ex2) and "seehuhn.de/go/sfnt" in str(ex2):
+                    frames = [l.strip() for l in str(ex2).splitlines() if "seehuhn.de/go/sfnt" in l and "(" in l][:3]
+                    ctx.violation("laying out SEPARATE fonts in separate goroutines aborts the process with a Go runtime "
+                                  "'concurrent map' error inside go-sfnt: the library writes to package-level state that "
+                                  "every layout shares (results then depend on the calls made before); frames: %s"
+                                  % "; ".join(frames), sig={"kind": "shared-package-state"}, case={"argv": argv[1:]})
+                    return False
+                raise
+        raise
+
+
 def run(ctx):
     _lock_subdir(ctx)
     ctx.assumptions += [
@@ -418,16 +445,16 @@ def _run_cases(ctx, binp, gen):
         cp = os.path.join(d, "tlc-%s.ndjson" % kind)
         vlib.write_ndjson(cp, gen[kind])
         tp = os.path.join(d, "trace-%s.ndjson" % kind)
-        ctx.run([binp, "run", cp, tp], timeout=1800)
-        files.append((tp, "LayoutPipeTrace: TLC-generated %s cases" % kind))
+        if _run_batch(ctx, [binp, "run", cp, tp], timeout=1800):
+            files.append((tp, "LayoutPipeTrace: TLC-generated %s cases" % kind))
         ctx.sample({"tlc_case_" + kind: gen[kind][0]})
     # the fixed boundary cases of every run (lengths 0/1/2, shrinking and growing GSUB, GPOS single
     # adjustment, minimum+override kern values below and above the accumulated value)
     cp = os.path.join(d, "directed.ndjson")
     ctx.run([binp, "directed", "0", cp])
     tp = os.path.join(d, "trace-directed.ndjson")
-    ctx.run([binp, "run", cp, tp], timeout=1800)
-    files.append((tp, "LayoutPipeTrace: directed boundary cases"))
+    if _run_batch(ctx, [binp, "run", cp, tp], timeout=1800):
+        files.append((tp, "LayoutPipeTrace: directed boundary cases"))
     nrand = ctx.pick(90, 1500)
     chunk = 300
     k = 0
@@ -437,14 +464,17 @@ def _run_cases(ctx, binp, gen):
         env = {"VERIF_SEED": str(ctx.seed * 1000 + k)}
         ctx.run([binp, "random", str(n), cp], env=env)
         tp = os.path.join(d, "trace-rand%d.ndjson" % k)
-        ctx.run([binp, "run", cp, tp], env=env, timeout=1800)
-        files.append((tp, "LayoutPipeTrace: random cases %d" % k))
+        if _run_batch(ctx, [binp, "run", cp, tp], env=env, timeout=1800):
+            files.append((tp, "LayoutPipeTrace: random cases %d" % k))
         k += 1
+    if not files:
+        return          # every batch ended in a reproduced runtime abort (reported above)
     evs = vlib.read_ndjson(files[0][0])
     for e in evs[1:3]:
         ctx.sample({"recorded_event": e})
     _parallel([(lambda tp=tp, label=label: _validate_file(ctx, tp, label, stats)) for tp, label in files])
-    _intended(ctx, files[1][0])
+    if len(files) > 1:
+        _intended(ctx, files[1][0])
     ctx.cov["evaluations"] += stats["events"]
     ctx.cov["distinct_nontrivial"] = len(stats["nontrivial"])
     ctx.cov["rule"] = ("distinct (font, request) pairs whose recorded answer shows an effect: a non-empty lookup "
